@@ -583,7 +583,12 @@ pub fn run_case(cfg: &Config, trace: Option<verif::Config>) -> CaseResult {
             g.allow_ext_opcodes = !e0;
             g.allow_buffer_opcodes = !b0;
         }
-        let _ = gen_once(&mut g, &Entropy::Seed(w));
+        // after a giant generation the ordinary warm-up is skipped half of the time, so that the
+        // judged call is the very next one (a one-shot effect of the giant call would otherwise
+        // always be absorbed by the warm-up in between)
+        if !(w % 32 == 1 && (w >> 7) % 2 == 0) {
+            let _ = gen_once(&mut g, &Entropy::Seed(w));
+        }
         g.min_opcodes = m0;
         g.max_opcodes = m1;
         g.seed = s0;
